@@ -323,6 +323,37 @@ Theorem C10_equiv_host_case_whole_url_partial :
 Proof. exact parse_url_host_case. Qed.
 Print Assumptions C10_equiv_host_case_whole_url_partial.
 
+Theorem C10_equiv_default_port_whole_url_partial :
+  forall enc lower_o idna_o ipv6_o int_o unq_o (sch sc : str) (dport : N) (A R h : str),
+    scheme_text lower_o sch sc dport ->
+    memb 47 A = false -> memb 63 A = false -> memb 35 A = false -> rest_ok R ->
+    parse_host idna_o ipv6_o int_o (snd (parse_authority A)) = Ok (h, None) ->
+    let rem := [47; 47] ++ A ++ R in
+    let rem' := [47; 47] ++ (A ++ 58 :: dec_of_N dport) ++ R in
+    plain_text (sch ++ 58 :: rem) -> plain_text (sch ++ 58 :: rem') ->
+    match parse enc lower_o idna_o ipv6_o int_o unq_o (sch ++ 58 :: rem), parse enc lower_o idna_o ipv6_o int_o unq_o (sch ++ 58 :: rem') with
+    | Ok i, Ok i' => url_of enc i = url_of enc i' /\ u_scheme i = u_scheme i' /\ u_hostname i = u_hostname i' /\
+                     u_port i = u_port i' /\ u_path i = u_path i' /\ u_query i = u_query i'
+    | Err k, Err k' => k = k'
+    | _, _ => False
+    end.
+Proof. exact parse_url_default_port. Qed.
+Print Assumptions C10_equiv_default_port_whole_url_partial.
+
+Theorem C10_equiv_fragment_whole_url_partial :
+  forall enc lower_o idna_o ipv6_o int_o unq_o (sch sc : str) (dport : N) (P f nf : str),
+    scheme_text lower_o sch sc dport -> memb 35 P = false -> enc [] = Some [] -> normalize_fragment enc f = Ok nf ->
+    plain_text (sch ++ 58 :: P ++ 35 :: f) -> plain_text (sch ++ 58 :: P) ->
+    match parse enc lower_o idna_o ipv6_o int_o unq_o (sch ++ 58 :: P ++ 35 :: f), parse enc lower_o idna_o ipv6_o int_o unq_o (sch ++ 58 :: P) with
+    | Ok i, Ok i' => url_of enc i = url_of enc i' /\ u_scheme i = u_scheme i' /\ u_hostname i = u_hostname i' /\
+                     u_port i = u_port i' /\ u_path i = u_path i' /\ u_query i = u_query i' /\
+                     u_fragment i = nf /\ u_fragment i' = []
+    | Err k, Err k' => k = k'
+    | _, _ => False
+    end.
+Proof. exact parse_url_fragment. Qed.
+Print Assumptions C10_equiv_fragment_whole_url_partial.
+
 (* non-vacuity: "HTTP://u:p@EXAMPLE.Test:8080/a/./x/../b?q#f" and "HTTP://u:p@example.test:8080/a/b?q#f" satisfy the premises
    (scheme text, plain texts) and parse to http://u:p@example.test:8080/a/b?q *)
 Example C10_whole_url_nonvacuous :
